@@ -15,6 +15,18 @@ package driver
 // d+<modes> (anywhere in the list) how device d's first connections fail before the normal one
 // (s: SetReaderConfig rejected, x: dropped after the connection event, y: dropped when
 // SetReaderConfig arrives, w: SetReaderConfig never answered), dC<k> command through the driver (0-3 reads, 4 write ROSpecID/Enable).
+// d~<flags> (anywhere): what EdgeX and the reader are like for device d — u: the reader has no UTC
+// clock (its connection events and what it flushes on close are uptime-stamped); s / d: the device
+// is already registered when the service starts (Driver.Start), operating state UP / DOWN (others
+// are added through Driver.AddDevice, UP); h: the SDK's UpdateDeviceOperatingState(Up) does not
+// return until released (step dH, or before dF / dZ, or when the device's steps are through);
+// l: it takes 25 ms; f: it returns an error; g: UpdateDeviceOperatingState(Down) returns an error.
+// dY: an outage during which the reader refuses connections until the device has been marked DOWN.
+// dQ<e><c><kind><v>: the reader begins message <kind><v> (R/E) — the header announces all of it —
+// and its connection ends after a part: e = f (end of stream: the reader shuts its sending side
+// down and waits for the device to close), h (the reader's end is closed at once), r (reset);
+// c = class of the offset at which the message is cut (see c13CutOffset). Nothing may be
+// published for that message; the device reconnects.
 //
 // ndev real LLRPDevices are created by the driver itself (AddDevice -> getDevice ->
 // NewLLRPDevice) on ONE Driver, i.e. one asynchronous-values channel, each connected to its own
@@ -54,9 +66,68 @@ import (
 	"github.com/edgexfoundry/device-rfid-llrp-go/pkg/llrp"
 )
 
-type c13SDK struct{ interfaces.DeviceServiceSDK }
+// the SDK as the driver sees it: the devices registered in EdgeX when the service starts, and
+// UpdateDeviceOperatingState, recorded, per device slow (parked until released / 25 ms) or failing
+type c13SDK struct {
+	interfaces.DeviceServiceSDK
+	devs []models.Device
+	beh  map[string]*c13SDKDev
+}
 
-func (c13SDK) UpdateDeviceOperatingState(string, models.OperatingState) error { return nil }
+type c13SDKDev struct {
+	rd                     *c13Reader
+	hold                   atomic.Bool // calls with Up park until release()
+	slow, fail, failDown   bool
+	rel                    chan struct{}
+	relOnce                sync.Once
+	parked, parkedTotal    atomic.Int64
+	upCalls, downCalls     atomic.Int64
+	upFailed, returnedLate atomic.Int64
+}
+
+func (b *c13SDKDev) release() {
+	b.hold.Store(false)
+	b.relOnce.Do(func() { close(b.rel) })
+}
+
+func (s *c13SDK) Devices() []models.Device { return s.devs }
+
+func (s *c13SDK) UpdateDeviceOperatingState(name string, st models.OperatingState) error {
+	b := s.beh[name]
+	if b == nil {
+		return nil
+	}
+	if st != models.Up {
+		b.downCalls.Add(1)
+		if b.failDown {
+			return fmt.Errorf("scripted failure of the operating-state update")
+		}
+		return nil
+	}
+	b.upCalls.Add(1)
+	if b.hold.Load() {
+		if !b.rd.inNormal() {
+			// a connection that is scripted to fail: core-metadata is unreachable (the flag stays DOWN)
+			b.upFailed.Add(1)
+			return fmt.Errorf("scripted failure of the operating-state update")
+		}
+		b.parked.Add(1)
+		b.parkedTotal.Add(1)
+		select {
+		case <-b.rel:
+		case <-time.After(30 * time.Second):
+		}
+		b.parked.Add(-1)
+		b.returnedLate.Add(1)
+	} else if b.slow {
+		time.Sleep(25 * time.Millisecond)
+	}
+	if b.fail {
+		b.upFailed.Add(1)
+		return fmt.Errorf("scripted failure of the operating-state update")
+	}
+	return nil
+}
 
 type c13Reader struct {
 	ln  net.Listener
@@ -89,6 +160,57 @@ type c13Reader struct {
 	modes    string
 	stallGRC atomic.Bool // answer the next GetReaderConfig in two pieces, 21 s apart
 	stall    time.Duration
+	// uptime: the reader has no UTC clock; its own events are stamped with Uptime
+	uptime bool
+	// curN: index of the current connection (among those on which a first message was sent)
+	curN atomic.Int64
+	// okCur: the device's SetReaderConfig was answered with success on the current connection
+	okCur atomic.Bool
+	// refuse: connections are closed as soon as they are accepted, nothing is sent (outage)
+	refuse  atomic.Bool
+	refused atomic.Int64
+	// mute: the sending side is shut down; requests are read and not answered
+	mute atomic.Bool
+	sdk  *c13SDKDev
+}
+
+// is the reader in a connection that is not scripted to fail?
+func (rd *c13Reader) inNormal() bool { return int(rd.curN.Load()) >= len(rd.modes) }
+
+// reconnected: a connection was accepted after the mark (a value of conns) and has got as far as
+// the device's SetReaderConfig being answered, or — while the SDK's operating-state calls are
+// held back, which comes first — as far as such a call
+func (rd *c13Reader) reconnected(mark int64) bool {
+	if rd.conns.Load() <= mark {
+		return false
+	}
+	return rd.okCur.Load() || (rd.sdk != nil && rd.sdk.hold.Load() && rd.sdk.parked.Load() > 0)
+}
+
+// cut sends the beginning of a frame and ends the connection: 'f' end of stream (the sending
+// side is shut down, the reader waits for the device to close), 'h' the reader's end is closed,
+// 'r' reset
+func (rd *c13Reader) cut(part []byte, how byte) {
+	rd.wmu.Lock()
+	defer rd.wmu.Unlock()
+	c := rd.conn
+	if c == nil {
+		return
+	}
+	c.Write(part)
+	tc, _ := c.(*net.TCPConn)
+	switch {
+	case how == 'f' && tc != nil:
+		rd.mute.Store(true)
+		tc.CloseWrite()
+	case how == 'r' && tc != nil:
+		time.Sleep(3 * time.Millisecond) // let the part arrive before the reset
+		tc.SetLinger(0)
+		c.Close()
+	default:
+		time.Sleep(time.Millisecond)
+		c.Close()
+	}
 }
 
 type c13First struct {
@@ -114,9 +236,13 @@ func (g c13Gated) Read(b []byte) (int, error) {
 // (another connection exists, reader/client initiated; failed for another reason; attempted
 // again), with further event parameters attached for the even ones, or ('n') an event without
 // any ConnectionAttemptEvent, or ('o') an ROAccessReport
-func c13FirstMessage(d, n int, mode byte) c13First {
+func c13FirstMessage(d, n int, mode byte, uptime bool) c13First {
 	utc := c13ConnUTC(d, n)
 	ts := []byte{0x00, 0x80, 0x00, 0x0C, 0, 0, 0, 0, 0, 0, 0, 0}
+	if uptime { // a reader without UTC clock: the Uptime parameter (129), microseconds since it started
+		ts[1] = 0x81
+		utc -= 1600000000000000 - 50000000
+	}
 	binary.BigEndian.PutUint64(ts[4:], utc)
 	ren := func(params ...[]byte) c13First {
 		body := append([]byte{}, ts...)
@@ -145,6 +271,9 @@ func c13FirstMessage(d, n int, mode byte) c13First {
 		body := append(epc, 0x89, 0, 0, byte(d), byte(n))
 		return c13First{c15MsgROAccessReport, append([]byte{0x00, 0xF0, 0x00, byte(len(body) + 4)}, body...)}
 	}
+	if uptime {
+		return ren(attempt(0))
+	}
 	return c13First{c15MsgReaderEventNotification, c15ConnEvent(0, utc)}
 }
 
@@ -165,16 +294,26 @@ func (rd *c13Reader) write(b []byte) error {
 	return err
 }
 
-// writeSplit writes b[:cut], waits, writes the rest; nothing else gets in between
-func (rd *c13Reader) writeSplit(b []byte, cut int, wait time.Duration) {
+// writeTo writes an answer on the connection the request came in on — never on a later one
+func (rd *c13Reader) writeTo(c net.Conn, b []byte) {
 	rd.wmu.Lock()
 	defer rd.wmu.Unlock()
-	if rd.conn == nil {
+	if rd.conn == c {
+		c.Write(b)
+	}
+}
+
+// writeSplit writes b[:cut], waits, writes the rest, on the connection the request came in on;
+// nothing else gets in between
+func (rd *c13Reader) writeSplit(c net.Conn, b []byte, cut int, wait time.Duration) {
+	rd.wmu.Lock()
+	defer rd.wmu.Unlock()
+	if rd.conn != c {
 		return
 	}
-	rd.conn.Write(b[:cut])
+	c.Write(b[:cut])
 	time.Sleep(wait)
-	rd.conn.Write(b[cut:])
+	c.Write(b[cut:])
 }
 
 func (rd *c13Reader) drop() {
@@ -210,17 +349,27 @@ func (rd *c13Reader) serve() {
 	}
 	for n := 0; ; n++ {
 		c := <-accepted
+		if rd.refuse.Load() {
+			// outage: whoever connects is turned away before anything is said
+			c.Close()
+			rd.refused.Add(1)
+			n--
+			continue
+		}
 		mode := byte(0)
 		if n < len(rd.modes) {
 			mode = rd.modes[n]
 		}
+		rd.curN.Store(int64(n))
+		rd.mute.Store(false)
+		rd.okCur.Store(false)
 		rd.wmu.Lock()
 		rd.conn = c
 		rd.wmu.Unlock()
 		if tc, ok := c.(*net.TCPConn); ok {
 			tc.SetReadBuffer(256 << 10) // fixed (no autotuning): the 16 MiB request of an F step exceeds what both ends buffer
 		}
-		fm := c13FirstMessage(rd.idx, n, mode)
+		fm := c13FirstMessage(rd.idx, n, mode, rd.uptime)
 		rd.fmu.Lock()
 		rd.first = append(rd.first, fm)
 		rd.fmu.Unlock()
@@ -244,6 +393,9 @@ func (rd *c13Reader) serve() {
 			typ, id, payload, err := c15ReadFrame(gc)
 			if err != nil {
 				break
+			}
+			if rd.mute.Load() {
+				continue
 			}
 			switch {
 			case typ == c15MsgGetSupportedVersion:
@@ -272,6 +424,7 @@ func (rd *c13Reader) serve() {
 					okHere = true
 					rd.okConns.Add(1)
 				}
+				rd.okCur.Store(true)
 				rd.once.Do(func() { close(rd.ready) })
 			case typ == c15MsgKeepAliveAck:
 				rd.acks.Add(1)
@@ -279,8 +432,8 @@ func (rd *c13Reader) serve() {
 				// a reader flushes what it has before it answers: one report and one event per close
 				rd.fmu.Lock()
 				m := len(rd.late)
-				lr := c13FirstMessage(rd.idx, 500+m, 'o')
-				le := c13FirstMessage(rd.idx, 501+m, '2')
+				lr := c13FirstMessage(rd.idx, 500+m, 'o', rd.uptime)
+				le := c13FirstMessage(rd.idx, 501+m, '2', rd.uptime)
 				rd.late = append(rd.late, lr, le)
 				rd.fmu.Unlock()
 				rd.write(c15Frame(lr.typ, uint32(8000+m), lr.payload))
@@ -295,21 +448,21 @@ func (rd *c13Reader) serve() {
 				case 0:
 					rd.write(reply)
 				case 1: // header and part of the payload now, the rest after the caller gave up
-					go rd.writeSplit(reply, 15, rd.stall)
+					go rd.writeSplit(c, reply, 15, rd.stall)
 				case 2: // everything, but only after the caller gave up
-					go func() { time.Sleep(rd.stall); rd.write(reply) }()
+					go func() { time.Sleep(rd.stall); rd.writeTo(c, reply) }()
 				case 3: // never
 				default: // header now, payload after the caller gave up
-					go rd.writeSplit(reply, 10, rd.stall)
+					go rd.writeSplit(c, reply, 10, rd.stall)
 				}
 			case typ == c15MsgGetReaderConfig && rd.stallGRC.CompareAndSwap(true, false):
-				go rd.writeSplit(c15Frame(c15MsgGetReaderConfigResp, id, c15Status(0)), 14, 21*time.Second)
+				go rd.writeSplit(c, c15Frame(c15MsgGetReaderConfigResp, id, c15Status(0)), 14, 21*time.Second)
 			default:
 				if rt, ok := c13Replies[typ]; ok {
 					// answer late, so that reports sent meanwhile meet a command in flight
 					go func(rt int, id uint32) {
 						time.Sleep(8 * time.Millisecond)
-						rd.write(c15Frame(rt, id, c15Status(0)))
+						rd.writeTo(c, c15Frame(rt, id, c15Status(0)))
 					}(rt, id)
 				} else {
 					rd.write(c15Frame(c15MsgErrorMessage, id, c15Status(109)))
@@ -433,10 +586,52 @@ func c13Report(v, i int, rnd *rand.Rand) *llrp.ROAccessReport {
 	}
 }
 
+// number of event shapes; 7..13 are stamped with Uptime (a reader without UTC clock), one of every kind
+const c13EventShapes = 14
+
+// shapes that carry a successful ConnectionAttemptEvent (their publisher runs onConnect first)
+func c13IsConnSuccess(v int) bool { return v%c13EventShapes == 4 || v%c13EventShapes == 11 }
+
 func c13Event(v, i int) *llrp.ReaderEventNotification {
 	utc := llrp.UTCTimestamp(1600000001000000 + uint64(i))
 	d := llrp.ReaderEventNotificationData{UTCTimestamp: utc}
-	switch v % 7 {
+	if v%c13EventShapes >= 7 {
+		d.UTCTimestamp = 0
+		d.Uptime = llrp.Uptime(555000000 + 1000*uint64(v%c13EventShapes) + uint64(i))
+	}
+	switch v % c13EventShapes {
+	case 7: // uptime-stamped from here on: GPI
+		d.GPIEvent = &llrp.GPIEvent{Port: uint16(1 + i%4), Event: i%2 == 1}
+	case 8: // exception with text and references
+		rs, ant, op := llrp.ROSpecID(i+1), llrp.AntennaID(2), llrp.OpSpecID(5)
+		d.ReaderExceptionEvent = &llrp.ReaderExceptionEvent{Message: fmt.Sprintf("uptime exception %d", i), ROSpecID: &rs, AntennaID: &ant, OpSpecID: &op}
+	case 9: // ROSpec / AISpec (with singulation details) / spec loop
+		d.ROSpecEvent = &llrp.ROSpecEvent{Event: llrp.ROSpecEventType(i % 3), ROSpecID: uint32(i + 1)}
+		d.AISpecEvent = &llrp.AISpecEvent{Event: 0, ROSpecID: uint32(i + 1), SpecIndex: 2,
+			SingulationDetails: &llrp.C1G2SingulationDetails{NumCollisionSlots: 3, NumEmptySlots: uint16(i)}}
+		d.SpecLoopEvent = &llrp.SpecLoopEvent{ROSpecID: uint32(i + 1), LoopCount: 7}
+	case 10: // hopping, buffer level, overflow, antenna
+		h := llrp.HoppingEvent(uint16(i + 1))
+		w := llrp.ReportBufferLevelWarningEvent(uint8(i % 100))
+		d.HoppingEvent, d.ReportBufferLevelWarningEvent = &h, &w
+		d.ReportBufferOverflowErrorEvent = &llrp.ReportBufferOverflowErrorEvent{}
+		d.AntennaEvent = &llrp.AntennaEvent{Event: llrp.AntennaEventType(i % 2), AntennaID: llrp.AntennaID(1 + i%4)}
+	case 11: // a successful connection attempt event in mid-stream
+		ce := llrp.ConnectionAttemptEvent(llrp.ConnSuccess)
+		d.ConnectionAttemptEvent = &ce
+	case 12: // the reader announces that it closes the connection (it does not), custom data
+		d.ConnectionCloseEvent = &llrp.ConnectionCloseEvent{}
+		d.Custom = []llrp.Custom{{VendorID: 25882, Subtype: uint32(i), Data: []byte{byte(i), 9}}}
+	case 13: // many events in one notification
+		h := llrp.HoppingEvent(uint16(i + 1))
+		d.HoppingEvent = &h
+		d.GPIEvent = &llrp.GPIEvent{Port: 3, Event: true}
+		d.ROSpecEvent = &llrp.ROSpecEvent{Event: 1, ROSpecID: uint32(i + 1), PreemptingROSpecID: 2}
+		d.RFSurveyEvent = &llrp.RFSurveyEvent{Event: llrp.RFSurveyEventType(i % 2), ROSpecID: uint32(i + 1)}
+		d.AISpecEvent = &llrp.AISpecEvent{Event: 0, ROSpecID: uint32(i + 1), SpecIndex: 1}
+		d.AntennaEvent = &llrp.AntennaEvent{Event: 1, AntennaID: 4}
+		ce := llrp.ConnectionAttemptEvent(llrp.ConnExistsReaderInitiated)
+		d.ConnectionAttemptEvent = &ce
 	case 0:
 		d.GPIEvent = &llrp.GPIEvent{Port: uint16(1 + i%4), Event: i%2 == 0}
 	case 1: // uptime-stamped
@@ -499,7 +694,175 @@ type c13Step struct {
 	typ      int
 	want     interface{} // decoded content expected to be published (nil: nothing)
 	used     int
+	// 'Q' steps: how the connection ends, where the message is cut (bytes of the payload sent;
+	// -k: only k bytes of the header), and what the part of the payload that is sent decodes to
+	// (nil: the decoder rejects it)
+	endHow  byte
+	cutAt   int
+	partial interface{}
 }
+
+// TV parameter sizes (type octet included), LLRP 1.1 section 17.2.x
+var c13TVLen = map[int]int{1: 3, 2: 9, 3: 9, 4: 9, 5: 9, 6: 2, 7: 3, 8: 3, 9: 5, 10: 3, 11: 3, 12: 3, 13: 13, 14: 3, 15: 3, 16: 5, 17: 3, 18: 5, 19: 3, 20: 3}
+
+// c13Boundaries walks a sequence of parameters and returns the offsets at which a parameter
+// ends, top-level ones and nested ones (children of TLVs that consist of parameters after a
+// fixed part of fix[type] bytes) separately
+func c13Boundaries(b []byte, base int, depth int, top, nested *[]int) {
+	fix := map[int]int{240: 0, 246: 0, 242: 0, 241: -1, 243: 10, 252: -2, 254: 7}
+	for off := 0; off < len(b); {
+		if b[off]&0x80 != 0 {
+			n := c13TVLen[int(b[off]&0x7f)]
+			if n == 0 || off+n > len(b) {
+				return
+			}
+			off += n
+		} else {
+			if off+4 > len(b) {
+				return
+			}
+			typ := int(b[off]&3)<<8 | int(b[off+1])
+			n := int(b[off+2])<<8 | int(b[off+3])
+			if n < 4 || off+n > len(b) {
+				return
+			}
+			if f, ok := fix[typ]; ok && f >= 0 && 4+f <= n && depth < 3 {
+				c13Boundaries(b[off+4+f:off+n], base+off+4+f, depth+1, top, nested)
+			}
+			off += n
+		}
+		if depth == 0 {
+			*top = append(*top, base+off)
+		} else {
+			*nested = append(*nested, base+off)
+		}
+	}
+}
+
+// c13CutOffset chooses where a message is cut, by class: 0 the header alone, 1 inside the header,
+// 2 a proper prefix of the payload that the decoder accepts on its own, 3 / 4 / 9 a / the last /
+// the first boundary between top-level parameters, 5 inside the header of a parameter, 6 a
+// boundary between nested parameters, 7 one byte short, 8 anywhere. Returned: bytes of the
+// payload sent, or -k for k bytes of the header only.
+func c13CutOffset(class int, payload []byte, decodes func([]byte) bool, rnd *rand.Rand) int {
+	var top, nested []int
+	c13Boundaries(payload, 0, 0, &top, &nested)
+	proper := func(l []int) []int {
+		var r []int
+		for _, o := range l {
+			if o > 0 && o < len(payload) {
+				r = append(r, o)
+			}
+		}
+		return r
+	}
+	top, nested = proper(top), proper(nested)
+	pick := func(l []int) int {
+		if len(l) == 0 {
+			return rnd.Intn(len(payload))
+		}
+		return l[rnd.Intn(len(l))]
+	}
+	switch class % 10 {
+	case 0:
+		return 0
+	case 1:
+		return -(1 + rnd.Intn(9))
+	case 2:
+		var ok []int
+		for o := 1; o < len(payload); o++ {
+			if decodes(payload[:o]) {
+				ok = append(ok, o)
+			}
+		}
+		if len(ok) == 0 {
+			return pick(top)
+		}
+		return pick(ok)
+	case 3:
+		return pick(top)
+	case 4:
+		if len(top) > 0 {
+			return top[len(top)-1]
+		}
+		return pick(nested)
+	case 9:
+		if len(top) > 0 {
+			return top[0]
+		}
+		return pick(nested)
+	case 5:
+		o := pick(append(append([]int{0}, top...), nested...)) + 1 + rnd.Intn(3)
+		if o >= len(payload) {
+			o = len(payload) - 1
+		}
+		return o
+	case 6:
+		return pick(nested)
+	case 7:
+		return len(payload) - 1
+	}
+	return rnd.Intn(len(payload))
+}
+
+// c13Decodes: does the library's decoder accept these bytes as the payload of the type?
+func c13Decodes(typ int, b []byte) (v interface{}, ok bool) {
+	defer func() {
+		if recover() != nil {
+			v, ok = nil, false
+		}
+	}()
+	if typ == c15MsgROAccessReport {
+		w := &llrp.ROAccessReport{}
+		return w, w.UnmarshalBinary(b) == nil
+	}
+	w := &llrp.ReaderEventNotification{}
+	return w, w.UnmarshalBinary(b) == nil
+}
+
+// c13Diff lists the paths of the leaves in which two values of one type differ (at most max)
+func c13Diff(a, b reflect.Value, path string, out *[]string, max int) {
+	if len(*out) >= max {
+		return
+	}
+	if a.Kind() != b.Kind() || a.Type() != b.Type() {
+		*out = append(*out, path)
+		return
+	}
+	switch a.Kind() {
+	case reflect.Ptr, reflect.Interface:
+		if a.IsNil() || b.IsNil() {
+			if a.IsNil() != b.IsNil() {
+				*out = append(*out, path)
+			}
+			return
+		}
+		c13Diff(a.Elem(), b.Elem(), path, out, max)
+	case reflect.Struct:
+		for i := 0; i < a.NumField(); i++ {
+			c13Diff(a.Field(i), b.Field(i), path+"."+a.Type().Field(i).Name, out, max)
+		}
+	case reflect.Slice, reflect.Array:
+		if a.Kind() == reflect.Slice && a.Type().Elem().Kind() == reflect.Uint8 {
+			if !reflect.DeepEqual(a.Interface(), b.Interface()) {
+				*out = append(*out, path)
+			}
+			return
+		}
+		if a.Len() != b.Len() {
+			*out = append(*out, path+".len")
+			return
+		}
+		for i := 0; i < a.Len(); i++ {
+			c13Diff(a.Index(i), b.Index(i), fmt.Sprintf("%s[%d]", path, i), out, max)
+		}
+	default:
+		if !reflect.DeepEqual(a.Interface(), b.Interface()) {
+			*out = append(*out, path)
+		}
+	}
+}
+
 
 // c13ProbeProcessReport answers the question "what would processReport do with a report that
 // carries only the uptime parameters": it calls the function directly (the supervised code never
@@ -529,7 +892,8 @@ func c13RunScenario(f []string) string {
 	rnd := rand.New(rand.NewSource(seed))
 	var errs atomic.Int64
 	asyncCh := make(chan *dsModels.AsyncValues, 1)
-	d := &Driver{lc: c15Logger{errs: &errs}, asyncCh: asyncCh, svc: c13SDK{},
+	sdk := &c13SDK{beh: map[string]*c13SDKDev{}}
+	d := &Driver{lc: c15Logger{errs: &errs}, asyncCh: asyncCh, svc: sdk,
 		activeDevices: make(map[string]*LLRPDevice), done: make(chan struct{}), config: &ServiceConfig{}}
 
 	// collector: the SDK's side of the channel, a little sluggish so that publishers queue up
@@ -597,6 +961,7 @@ func c13RunScenario(f []string) string {
 
 	readers := make([]*c13Reader, ndev)
 	names := make([]string, ndev)
+	var devFlags []string
 	steps := []*c13Step{}
 	t0 := time.Now()
 	for i := 0; i < ndev; i++ {
@@ -611,13 +976,23 @@ func c13RunScenario(f []string) string {
 		}
 		defer ln2.Close()
 		rd := &c13Reader{ln: ln, ln2: ln2, idx: i, ready: make(chan struct{}), stall: 90 * time.Millisecond, early: map[byte][][]byte{}}
+		flags := ""
 		for _, st := range f[3:] {
 			if len(st) > 2 && st[1] == '+' && int(st[0]-'0') == i {
 				rd.modes = st[2:]
 			}
+			if len(st) > 2 && st[1] == '~' && int(st[0]-'0') == i {
+				flags += st[2:]
+			}
 		}
 		readers[i] = rd
 		names[i] = fmt.Sprintf("c13-%s-dev%d", id, i)
+		rd.uptime = strings.Contains(flags, "u")
+		rd.sdk = &c13SDKDev{rd: rd, rel: make(chan struct{}), slow: strings.Contains(flags, "l"),
+			fail: strings.Contains(flags, "f"), failDown: strings.Contains(flags, "g")}
+		rd.sdk.hold.Store(strings.Contains(flags, "h"))
+		sdk.beh[names[i]] = rd.sdk
+		devFlags = append(devFlags, flags)
 	}
 	protoOf := func(di, which int) protocolMap {
 		ln := readers[di].ln
@@ -718,8 +1093,35 @@ func c13RunScenario(f []string) string {
 			if (&llrp.ReaderEventNotification{}).UnmarshalBinary(s.payload) == nil {
 				notes = append(notes, "!badgen:"+st)
 			}
-		case 'K', 'C', 'T', 'U', 'X', 'Z', 'F', 'G', 'P':
-		case '+':
+		case 'Q':
+			// dQ<e><c><kind><v>: message <kind><v> is begun and its connection ends after a part
+			if len(st) < 6 || strings.IndexByte("fhr", st[2]) < 0 || st[3] < '0' || st[3] > '9' || (st[4] != 'R' && st[4] != 'E') {
+				return "!badstep:" + st
+			}
+			s.endHow = st[2]
+			s.variant, _ = strconv.Atoi(st[5:])
+			var b []byte
+			var err error
+			if st[4] == 'R' {
+				s.typ = c15MsgROAccessReport
+				b, err = c13Report(s.variant, i, rnd).MarshalBinary()
+			} else {
+				s.typ = c15MsgReaderEventNotification
+				b, err = c13Event(s.variant, i).MarshalBinary()
+			}
+			if err != nil || len(b) < 2 {
+				return "!marshal"
+			}
+			s.payload = b
+			typ := s.typ
+			s.cutAt = c13CutOffset(int(st[3]-'0'), b, func(p []byte) bool { _, ok := c13Decodes(typ, p); return ok }, rnd)
+			if s.cutAt >= 0 {
+				if v, ok := c13Decodes(typ, b[:s.cutAt]); ok {
+					s.partial = v
+				}
+			}
+		case 'K', 'C', 'T', 'U', 'X', 'Z', 'F', 'G', 'P', 'H', 'Y':
+		case '+', '~':
 			continue
 		default:
 			return "!badstep:" + st
@@ -736,8 +1138,29 @@ func c13RunScenario(f []string) string {
 		}
 		perDev[s.dev] = append(perDev[s.dev], s)
 	}
+	// devices that EdgeX already knows when the service starts (UP or DOWN) come from Driver.Start,
+	// the others are added afterwards
+	atStart := false
 	for i, rd := range readers {
 		go rd.serve()
+		if strings.ContainsAny(devFlags[i], "sd") {
+			st := models.OperatingState(models.Up)
+			if strings.Contains(devFlags[i], "d") {
+				st = models.Down
+			}
+			sdk.devs = append(sdk.devs, models.Device{Name: names[i], Protocols: protoOf(i, 0), OperatingState: st, AdminState: models.Unlocked})
+			atStart = true
+		}
+	}
+	if atStart {
+		if err := d.Start(); err != nil {
+			return "!start " + err.Error()
+		}
+	}
+	for i := range readers {
+		if strings.ContainsAny(devFlags[i], "sd") {
+			continue
+		}
 		if err := d.AddDevice(names[i], protoOf(i, 0), models.Unlocked); err != nil {
 			return "!adddevice " + err.Error()
 		}
@@ -747,10 +1170,21 @@ func c13RunScenario(f []string) string {
 		if strings.Contains(rd.modes, "w") {
 			patience = 40 * time.Second
 		}
-		select {
-		case <-rd.ready:
-		case <-time.After(patience):
-			return "!notready"
+		// ready: the device's SetReaderConfig was answered, or (which comes first when the SDK's
+		// operating-state call is held back) its connection event is being processed
+		for dl := time.Now().Add(patience); ; {
+			select {
+			case <-rd.ready:
+			default:
+				if rd.sdk.parked.Load() == 0 {
+					if time.Now().After(dl) {
+						return "!notready"
+					}
+					time.Sleep(200 * time.Microsecond)
+					continue
+				}
+			}
+			break
 		}
 	}
 
@@ -778,12 +1212,42 @@ func c13RunScenario(f []string) string {
 					stuck.Add(1)
 				}
 			}
-			waitOK := func(before int64) {
-				for dl := time.Now().Add(6 * time.Second); rd.okConns.Load() <= before && time.Now().Before(dl); {
-					time.Sleep(time.Millisecond)
+			waitOK := func(mark int64) {
+				for dl := time.Now().Add(6 * time.Second); !rd.reconnected(mark) && time.Now().Before(dl); {
+					time.Sleep(500 * time.Microsecond)
 				}
-				if rd.okConns.Load() <= before {
+				if !rd.reconnected(mark) {
 					noReconnect.Add(1)
+				}
+			}
+			// the SDK's operating-state calls return now; wait until the connection set-up that
+			// was waiting for them is through (the device's SetReaderConfig answered)
+			releaseAndSettle := func() {
+				if !rd.sdk.hold.Load() {
+					return
+				}
+				rd.sdk.release()
+				for dl := time.Now().Add(3 * time.Second); (rd.sdk.parked.Load() > 0 || rd.okConns.Load() == 0) && time.Now().Before(dl); {
+					time.Sleep(500 * time.Microsecond)
+				}
+				time.Sleep(2 * time.Millisecond)
+			}
+			// what this device must have published by now: everything sent before step k, except
+			// the connection events whose publishers are waiting for the SDK
+			needBefore := func(k int) int {
+				rd.fmu.Lock()
+				need := len(rd.first) + len(rd.late) + earlyWant[di]
+				rd.fmu.Unlock()
+				for _, p := range perDev[di][:k] {
+					if p.want != nil {
+						need++
+					}
+				}
+				return need - int(rd.sdk.parked.Load())
+			}
+			waitBefore := func(k int, limit time.Duration) {
+				for dl := time.Now().Add(limit); countDev(names[di]) < needBefore(k) && time.Now().Before(dl); {
+					time.Sleep(500 * time.Microsecond)
 				}
 			}
 			// before the reader reads again: everything it sent meanwhile must have been published
@@ -795,10 +1259,16 @@ func c13RunScenario(f []string) string {
 				rd.fmu.Lock()
 				need := len(rd.first) + len(rd.late) + earlyWant[di]
 				rd.fmu.Unlock()
-				for _, p := range perDev[di][:k] {
-					// (a successful connection event in mid-stream is published only after the
+				stallAt := 0
+				for j, p := range perDev[di][:k] {
+					if p.kind == 'F' {
+						stallAt = j
+					}
+				}
+				for j, p := range perDev[di][:k] {
+					// (a successful connection event sent during the stall is published only after the
 					// SetReaderConfig exchange it triggers, which waits for the blocked writer)
-					if p.want != nil && !(p.kind == 'E' && p.variant%7 == 4) {
+					if p.want != nil && !(j > stallAt && p.kind == 'E' && c13IsConnSuccess(p.variant)) {
 						need++
 					}
 				}
@@ -814,9 +1284,39 @@ func c13RunScenario(f []string) string {
 				rd.paused.Store(false)
 			}
 			defer resume(len(perDev[di]))
+			defer rd.sdk.release()
 			for k, s := range perDev[di] {
 				time.Sleep(delays[s.idx%len(delays)])
 				switch s.kind {
+				case 'H':
+					rd.sdk.release()
+				case 'Y':
+					// outage: the reader's end goes away and connections are refused until the
+					// device has been marked DOWN (or, if it was DOWN already, a few attempts failed)
+					before := rd.conns.Load()
+					downs := rd.sdk.downCalls.Load()
+					rd.refused.Store(0)
+					rd.refuse.Store(true)
+					rd.drop()
+					for dl := time.Now().Add(3 * time.Second); rd.sdk.downCalls.Load() == downs && rd.refused.Load() < 5 && time.Now().Before(dl); {
+						time.Sleep(time.Millisecond)
+					}
+					rd.refuse.Store(false)
+					waitOK(before)
+				case 'Q':
+					// a message is begun and the connection ends before all of it was sent
+					before := rd.conns.Load()
+					if s.endHow != 'f' {
+						// (a reset may overtake what is still on its way: wait for what was sent before)
+						waitBefore(k, time.Second)
+					}
+					fr := c15Frame(s.typ, uint32(5000+s.idx), s.payload)
+					part := fr[:10+s.cutAt]
+					if s.cutAt < 0 {
+						part = fr[:-s.cutAt]
+					}
+					rd.cut(part, s.endHow)
+					waitOK(before)
 				case 'P':
 					// back-pressure: the consumer of the asynchronous-values channel takes nothing
 					// for variant/10 seconds; every device goes on publishing meanwhile
@@ -825,6 +1325,11 @@ func c13RunScenario(f []string) string {
 					// the reader's receive side stalls: it stops taking bytes off the wire while a
 					// large request is on its way (so the client's writer blocks in Write), and its
 					// KeepAlive timer fires k times; what follows is sent behind that backlog
+					releaseAndSettle()
+					// (what is measured is what is sent behind the backlog: connection events of
+					// earlier connections whose publishers are still talking to the SDK / the reader
+					// are waited for first)
+					waitBefore(k, 1500*time.Millisecond)
 					rd.paused.Store(true)
 					wg.Add(1)
 					mine.Add(1)
@@ -858,19 +1363,23 @@ func c13RunScenario(f []string) string {
 						}(where)
 						continue
 					}
-					before := rd.okConns.Load()
+					before := rd.conns.Load()
 					where = 1 - where
 					bounded("update", 3*time.Second, func() { _ = d.UpdateDevice(names[di], protoOf(di, where), models.Unlocked) })
 					waitOK(before)
 				case 'X':
 					// outage: the reader's side of the connection goes away; the device reconnects
-					before := rd.okConns.Load()
+					before := rd.conns.Load()
 					rd.drop()
 					waitOK(before)
 				case 'Z':
 					// this device is removed while the others go on; nothing more is sent for it.
 					// (Its own commands are allowed to finish first: a request caught by the removal
 					// waits for the 20 s deadline on the client the supervisor leaves behind.)
+					// (so are the publishers of its connection events, which talk to the SDK and then to
+					// the reader: caught by the removal they would wait for the 20 s deadline as well)
+					releaseAndSettle()
+					waitBefore(k, 1500*time.Millisecond)
 					bounded("commands", 3*time.Second, mine.Wait)
 					bounded("remove", 3*time.Second, func() { _ = d.RemoveDevice(names[di], nil) })
 					for _, rest := range perDev[di][k+1:] {
@@ -1009,7 +1518,6 @@ func c13RunScenario(f []string) string {
 			last, since = n, time.Now()
 		}
 	}
-	t1 := time.Now()
 	var acks int64
 	for _, rd := range readers {
 		acks += rd.acks.Load()
@@ -1089,17 +1597,10 @@ func c13RunScenario(f []string) string {
 			// which sent message is this the content of?
 			val := cv.Value
 			resOfVal := ""
-			if ev, ok := val.(*llrp.ReaderEventNotification); ok {
+			// content: the published value must equal, field by field, the decoding of the bytes
+			// the reader sent — nothing added (no time of ours), nothing dropped
+			if _, ok := val.(*llrp.ReaderEventNotification); ok {
 				resOfVal = "REN"
-				cp := *ev
-				// an uptime-stamped event may have been given a UTC time from our clock
-				if cp.ReaderEventNotificationData.Uptime != 0 && cp.ReaderEventNotificationData.UTCTimestamp != 0 {
-					u := int64(cp.ReaderEventNotificationData.UTCTimestamp)
-					if u >= t0.Add(-time.Second).UnixNano()/1000 && u <= t1.Add(time.Second).UnixNano()/1000 {
-						cp.ReaderEventNotificationData.UTCTimestamp = 0
-					}
-				}
-				val = &cp
 			} else if _, ok := val.(*llrp.ROAccessReport); ok {
 				resOfVal = "RO"
 			}
@@ -1109,6 +1610,37 @@ func c13RunScenario(f []string) string {
 					if hit == nil || (hit.used > 0 && s.used == 0) {
 						hit = s
 					}
+				}
+			}
+			if hit == nil {
+				// the decoding of the part of a message whose connection ended before the rest came?
+				for _, s := range steps {
+					if s.kind == 'Q' && s.partial != nil && reflect.TypeOf(s.partial) == reflect.TypeOf(val) && reflect.DeepEqual(s.partial, val) {
+						hit = s
+						break
+					}
+				}
+				if hit != nil {
+					toks = append(toks, fmt.Sprintf("!partial:%s:%s:%d:%d/%d", devIdx(g.v.DeviceName), res, hit.idx, hit.cutAt, len(hit.payload)))
+					continue
+				}
+				// which message is it closest to, and in which fields does it differ?
+				var best []string
+				for _, s := range steps {
+					if s.want == nil || reflect.TypeOf(s.want) != reflect.TypeOf(val) {
+						continue
+					}
+					var df []string
+					c13Diff(reflect.ValueOf(s.want), reflect.ValueOf(val), "", &df, 4)
+					if len(df) > 0 && len(df) < 4 && (hit == nil || len(df) < len(best) || (len(df) == len(best) && s.used < hit.used)) {
+						hit, best = s, df
+					}
+				}
+				if hit != nil {
+					hit.used++
+					toks = append(toks, fmt.Sprintf("%s:%s:%d", devIdx(g.v.DeviceName), res, hit.idx))
+					toks = append(toks, fmt.Sprintf("!differs:%s:%s:%d:%s", devIdx(g.v.DeviceName), res, hit.idx, strings.Join(best, ",")))
+					continue
 				}
 			}
 			switch {
@@ -1132,8 +1664,26 @@ func c13RunScenario(f []string) string {
 	for _, rd := range readers {
 		conns += rd.conns.Load()
 	}
-	return fmt.Sprintf("%d %s | acks=%d/%d cmds=%d/%d timed=%d/%d other=%d conns=%d errs=%d stuck=%d noreconnect=%d heldback=%d ms=%d sent=%s", len(toks), strings.Join(toks, " "),
-		acks, kaN.Load(), cmdOK.Load(), cmdN.Load(), tOK.Load(), tN.Load(), other, conns, errs.Load(), stuck.Load(), noReconnect.Load(), heldBack.Load(), time.Since(t0).Milliseconds(), strings.Join(sent, ","))
+	var cuts []string
+	for _, s := range steps {
+		if s.kind == 'Q' {
+			dec := "-"
+			if s.partial != nil {
+				dec = "d" // the part that is sent decodes on its own
+			}
+			cuts = append(cuts, fmt.Sprintf("%d:%d/%d%s", s.idx, s.cutAt, len(s.payload), dec))
+		}
+	}
+	var sdkUp, sdkDown, sdkLate, sdkFailed int64
+	for _, rd := range readers {
+		sdkUp += rd.sdk.upCalls.Load()
+		sdkDown += rd.sdk.downCalls.Load()
+		sdkLate += rd.sdk.returnedLate.Load()
+		sdkFailed += rd.sdk.upFailed.Load()
+	}
+	return fmt.Sprintf("%d %s | acks=%d/%d cmds=%d/%d timed=%d/%d other=%d conns=%d errs=%d stuck=%d noreconnect=%d heldback=%d sdk=%d/%d/%d/%d cuts=%s ms=%d sent=%s", len(toks), strings.Join(toks, " "),
+		acks, kaN.Load(), cmdOK.Load(), cmdN.Load(), tOK.Load(), tN.Load(), other, conns, errs.Load(), stuck.Load(), noReconnect.Load(), heldBack.Load(),
+		sdkUp, sdkLate, sdkFailed, sdkDown, strings.Join(cuts, ","), time.Since(t0).Milliseconds(), strings.Join(sent, ","))
 }
 
 var _ = binary.BigEndian
